@@ -425,7 +425,11 @@ ocp.set_der(v, a)
             v_expressions[self.symbol_map[i][0]][self.symbol_map[i][1]] = pool[i]
 
         v_active_symbols = [self.v_symbols[e] for e in active_symbols]
-        v_active_expressions = [ca.vcat(v_expressions[i]) for i in active_symbols]
+        # components of a vector-valued state/control that the expression does not use still need the sampled width
+        v_active_expressions = []
+        for i in active_symbols:
+            width = max(e.shape[1] for e in v_expressions[i] if not isinstance(e, int))
+            v_active_expressions.append(ca.vcat([DM.zeros(1, width) if isinstance(e, int) else e for e in v_expressions[i]]))
 
         return v_active_symbols, v_active_expressions
 
